@@ -610,6 +610,30 @@ def _c16_guards(ctx):
     m.oblige('verifier promise guard: Err iff promise >= 2^bit_length, for all u64 promises and every constructible bit length', [valid_n, some[0], z3.Or(err) != spec_err],
              key='C07:promise-guard', pred=None)
     m.no_overflow(lp, 'verifier promise guard', 'C07:promise-guard')
+    # ---- (f) the s-vector loop of verify (`for i in 1..full_length`): its unchecked `1 << log_i`, `i - j`, `rounds - log_i - 1` cannot overflow
+    f = m.fn(r'range_proof\.rs.*>::verify$')
+    a = m.anchor(f, r'checked_ilog2', 's-vector loop')
+    head = f.walk_back(a, r'<std::ops::Range<usize> as Iterator>::next\(')
+    rb = f.walk_back(head, r'Range::<usize> \{ start: const 1_usize') if head else None
+    if head is None or rb is None:
+        raise lib.Inconclusive('s-vector loop anchors')
+    ev = Evaluator(f)
+    lp = ev.run(start=rb, stops=(m.loop_exit(f, head),))
+    m.note_region(f, 's-vector loop body (index arithmetic with clippy::arithmetic_side_effects allowed)', sorted(set(sum([p.trace for p in lp], []))))
+    rng_obs = [o for p in lp for o in p.obs if o['kind'] == 'range_next' and o['range'] is not None]
+    if not rng_obs:
+        raise lib.Inconclusive('s-vector loop: Range not observed')
+    full = rng_obs[0]['range'].fields[1].e
+    others = [v.e for k, v in ev.sym_decl.items() if isinstance(v, BV) and v.ty == 'usize' and re.match(r'_\d+@0$', k[0]) and str(v.e) != str(full)]
+    if len(others) != 1:
+        raise lib.Inconclusive('s-vector loop: rounds symbol not identified (%s)' % others)
+    rounds = others[0]
+    # invariant established by the round-count guard proved above: full_length == 2^rounds, rounds < 64
+    inv = [z3.ULT(rounds, 64), full == (z3.BitVecVal(1, 64) << rounds)]
+    nass = m.no_overflow(lp, 's-vector loop of verify (given 2^rounds == full_length)', 'C16:s-vector', assume=inv)
+    m.ctx.expect(nass >= 3, 'C16:s-vector', 's-vector loop: expected rustc assertions for the shift and the two subtractions, found %d' % nass, None, None)
+    # no index of s / challenges_sq can be out of range either: the `get(..)` calls return Some on the continuing path (structural: the loop can continue)
+    m.ctx.expect(any(p.end[0] == 'backedge' for p in lp), 'C16:s-vector', 's-vector loop: no continuing path', None, None)
     ctx.extra.setdefault('engine_m', {})['regions'] = m.regions
     ctx.extra['engine_m']['mir_dump_s'] = round(_cache.get('dump_s', 0), 1)
     ctx.functions |= {r['function'] for r in m.regions}
